@@ -16,7 +16,7 @@ INFO = dict(
 
 def run(ctx):
     res = Result()
-    n = ctx.n(5, 8 if ctx.search else 30)
+    n = ctx.n(3, 6 if ctx.search else 30)
     seeds = [ctx.rng.randrange(1 << 30) for _ in range(n)]
     tasks = [dict(fn="tasks_rt:api_case", args=dict(seed=s), timeout=900) for s in seeds]
     for t, r in ac.pool_cases(tasks, res, timeout=900):
